@@ -2,18 +2,24 @@
 """Copy confirmed sub-agent mutations from /tmp/wt/<P>/_out/<k> into /verif/seeded/<P>-<k>/ with meta.json."""
 import json, os, shutil, sys, re
 V = "/verif"
+BASE = os.environ.get("SEED_BASE", "/tmp/wt")
+TAG = os.environ.get("SEED_TAG", "")  # e.g. "r2" -> ids C01-r2-1
 props = {json.loads(l)["id"]: json.loads(l) for l in open(V + "/properties.jsonl")}
-for P in sorted(os.listdir("/tmp/wt")):
-    d = "/tmp/wt/%s/_out" % P
+for P in sorted(os.listdir(BASE)):
+    d = "%s/%s/_out" % (BASE, P)
     if not os.path.isdir(d) or P not in props:
         continue
     for k in sorted(os.listdir(d)):
         src = os.path.join(d, k)
+        if not os.path.isdir(src):
+            continue
         cj = os.path.join(src, "confirm.json")
         if not os.path.exists(cj):
             continue
         c = json.load(open(cj))
-        dst = "%s/seeded/%s-%s" % (V, P, k)
+        if not k.isdigit():
+            continue
+        dst = "%s/seeded/%s-%s%s" % (V, P, (TAG + "-") if TAG else "", k)
         compile_fail_demo = c.get("demo_pristine_exit") != 0
         log = open(os.path.join(src, "demo_pristine.log")).read() if os.path.exists(os.path.join(src, "demo_pristine.log")) else ""
         if compile_fail_demo and "error[E" not in log and "error: lifetime may not live long enough" not in log and "error:" not in log:
@@ -30,7 +36,8 @@ for P in sorted(os.listdir("/tmp/wt")):
         open(os.path.join(dst, "notes.md"), "w").write(notes)
         files = sorted(set(re.findall(r"^\+\+\+ b/(\S+)", open(os.path.join(src, "patch.diff")).read(), re.M)))
         meta = {
-            "id": "%s-%s" % (P, k),
+            "id": os.path.basename(dst),
+            "round": TAG or "r1",
             "breaks_property": P,
             "property_title": props[P]["title"],
             "files_changed": files,
